@@ -163,7 +163,7 @@ def trace_part(chk, S, n_examples):
         f = draw(st.sampled_from([(0, 1), (1, 1), (1, 2), (1, 4), (3, 4), (3, 10), (7, 10), (1, 3), (2, 3), (13, 20), (9, 10),
                                   (1, 10), (1, 100), (99, 100)]))
         f2 = draw(st.sampled_from([(1, 1), (9, 10), (3, 4), (1, 2)]))
-        sigma = draw(st.sampled_from([0.5, 1.0, 2.0, 5.0, 10.0]))
+        sigma = draw(st.sampled_from([0.0, 0.0, 0.5, 1.0, 2.0, 5.0, 10.0]))      # 0: no smoothing, many exact density ties
         scale = draw(st.sampled_from(['linear', 'log', 'logicle']))
         return dict(kind=kind, N=N, seed=seed, kx=kx, ky=ky, binspec=binspec, f=f, f2=f2, sigma=sigma, scale=scale)
 
